@@ -266,6 +266,7 @@ func TestVerifC02Trace(t *testing.T) {
 				closeIdx = -1
 			}
 			size = 9
+			base = []uint64{0, 1<<32 - 3, math.MaxUint64 - uint64(n) - 1}[r%3] // no wrap inside a stream's life
 			order = order[:0]
 			switch r {
 			case 0: // everything but frame 0, then frame 0
